@@ -41,6 +41,8 @@ def spell(spelling, path, line):
 
 def eval_case(case):
     """case = (codemod id, n, mode, spelling): the codemod's seeds are tried in order until one gives single-line sites."""
+    if case[0] == "history":
+        return hist_eval(case)
     cm_id, n, mode, spelling = case
     last = ([], {"usable": False, "why": "no seed"})
     for seed in candidate_seeds().get(cm_id, [])[:6]:
@@ -143,6 +145,57 @@ def _eval_seed(seed, n, mode, spelling):
     return sorted(set(out)), {"usable": True, "files": len(expect), "nontrivial": nontrivial}
 
 
+# ---- histories in one process: what an earlier run() was told about a path must not reach a later one -------------------
+HIST_SRC = b"a = set([1, 2])\nkeep = 0\nb = set([3, 4])\nimport random\nr1 = random.random()\nr2 = random.random()\n"
+HIST_KINDS = {
+    "detector-less": ("pixee:python/use-set-literal", (1, 3)),
+    "semgrep-detected": ("pixee:python/secure-random", (5, 6)),
+}
+
+
+def hist_patterns(lines, tier):
+    a, b = lines
+    pats = [(), ("--path-exclude", f"app.py:{a}"), ("--path-exclude", f"app.py:{b}"), ("--path-include", f"app.py:{a}"), ("--path-include", f"app.py:{b}")]
+    if tier == "thorough":
+        pats += [("--path-exclude", f"*.py:{a}"), ("--path-include", f"app.py:{a},app.py:{b}"), ("--path-exclude", "nothing.py:1")]
+    return pats
+
+
+def hist_cases(tier):
+    out = []
+    for kind, (cm, lines) in HIST_KINDS.items():
+        pats = hist_patterns(lines, tier)
+        for p1, p2 in itertools.permutations(range(len(pats)), 2):
+            out.append(("history", kind, p1, p2))
+        if tier == "thorough":
+            for p1, p2, p3 in itertools.permutations(range(5), 3):
+                out.append(("history", kind, p1, p2, p3))
+    return out
+
+
+def _outcome(obs, k):
+    cs = [(c["path"], sorted(ch["lineNumber"] for ch in c["changes"]), c["diff"]) for r in (obs.reports[k] or {}).get("results", []) for c in r["changeset"]]
+    return obs.exits[k], obs.after[k].get("app.py"), cs
+
+
+def hist_eval(case):
+    _, kind, *idx = case
+    cm, lines = HIST_KINDS[kind]
+    pats = hist_patterns(lines, "thorough")
+    argvs = [["{dir}", "--codemod-include", cm] + list(pats[i]) for i in idx]
+    files = {"app.py": HIST_SRC}
+    seq = drive.run_inproc(drive.Job(files=files, argv=argvs[0], argv_seq=argvs, restore_between=True))
+    alone = drive.run_inproc(drive.Job(files=files, argv=argvs[-1]))
+    for o in (seq, alone):
+        if o.error:
+            raise core.HarnessError(o.error)
+    last = len(idx) - 1
+    if _outcome(seq, last) != _outcome(alone, 0):
+        return [(f"history|{kind}|run-after-other-runs-differs-from-the-same-run-alone",
+                 f"{cm}: run() with {list(pats[idx[-1]]) or 'no line patterns'} after run() with {[list(pats[i]) or 'no line patterns' for i in idx[:-1]]} on the same path (files restored) changes lines {_outcome(seq, last)[2] and _outcome(seq, last)[2][0][1]} but alone {_outcome(alone, 0)[2] and _outcome(alone, 0)[2][0][1]}")], {"usable": True, "files": 1, "nontrivial": 1}
+    return [], {"usable": True, "files": 1, "nontrivial": int(_outcome(alone, 0)[1] != HIST_SRC)}
+
+
 def cases(tier):
     n = 2 if tier == "quick" else 3
     out = []
@@ -150,7 +203,7 @@ def cases(tier):
         for mode in ("exclude", "include"):
             for sp in SPELLINGS if tier == "thorough" else SPELLINGS[:3]:
                 out.append((cm, n, mode, sp))
-    return out
+    return out + hist_cases(tier)
 
 
 def explore(tier, seed):
@@ -165,7 +218,8 @@ def explore(tier, seed):
             unusable[cm] = info.get("why")
             continue
         usable += 1
-        codemods.add(cm)
+        if cm != "history":
+            codemods.add(cm)
         files += info.get("files", 0)
         nontrivial += info.get("nontrivial", 0)
         for sig, detail in found:
@@ -197,6 +251,7 @@ def explore(tier, seed):
         "subset_files_as_expected_and_line_numbers_checked": nontrivial,
         "sites_per_file": 2 if tier == "quick" else 3,
         "spellings": SPELLINGS if tier == "thorough" else SPELLINGS[:3],
+        "in_process_histories": {"cases": len(hist_cases(tier)), "rule": "two (thorough: also three) run() calls in one process on the same path with different line patterns, files restored in between; the last run must equal the same run in a fresh state"},
         "replay_divergence": divergence,
         "rule": "state = (codemod, subset of site lines, include|exclude, spelling, location); every subset has its own file, one real run per (codemod, mode, spelling); site lines measured by a pattern-free reference run",
     }
